@@ -241,30 +241,33 @@ CMR_ERROR CMRsubmatReadFromStream(CMR* cmr, CMR_SUBMAT** psubmatrix, size_t* pnu
   if (fscanf(stream, "%zu %zu %zu %zu", &numOriginalRows, &numOriginalColumns, &numRows, &numColumns) != 4)
     return CMR_ERROR_INPUT;
 
-  if (numRows > numOriginalRows || numColumns > numOriginalColumns)
+  if (numOriginalRows > INT_MAX || numOriginalColumns > INT_MAX || numRows > numOriginalRows
+    || numColumns > numOriginalColumns)
+  {
     return CMR_ERROR_INPUT;
+  }
 
   CMR_CALL( CMRsubmatCreate(cmr, numRows, numColumns, psubmatrix) );
   CMR_SUBMAT* submatrix = *psubmatrix;
   for (size_t r = 0; r < numRows; ++r)
   {
     size_t row;
-    if (fscanf(stream, "%zu", &row) != 1)
+    if (fscanf(stream, "%zu", &row) != 1 || row == 0 || row > numOriginalRows)
+    {
+      CMR_CALL( CMRsubmatFree(cmr, psubmatrix) );
       return CMR_ERROR_INPUT;
-
-    if (row == 0 || row > numOriginalRows)
-      return CMR_ERROR_INPUT;
+    }
 
     submatrix->rows[r] = row - 1;
   }
   for (size_t c = 0; c < numColumns; ++c)
   {
     size_t column;
-    if (fscanf(stream, "%zu", &column) != 1)
+    if (fscanf(stream, "%zu", &column) != 1 || column == 0 || column > numOriginalColumns)
+    {
+      CMR_CALL( CMRsubmatFree(cmr, psubmatrix) );
       return CMR_ERROR_INPUT;
-
-    if (column == 0 || column > numOriginalColumns)
-      return CMR_ERROR_INPUT;
+    }
 
     submatrix->columns[c] = column - 1;
   }
